@@ -219,6 +219,32 @@ def check_case(case):
         if cols[:9] != ["#CHROM", "POS", "ID", "REF", "ALT", "QUAL", "FILTER", "INFO", "FORMAT"] or cols[9] != "SAMPLE":
             bad("vcf:header", f"column line {cols}")
         recs_out = [ln.split("\t") for ln in lines[1:]]
+        # the text must also be a VCF an independent parser (htslib through pysam) accepts, record for record
+        if recs_out:
+            import pysam
+            import tempfile as _tf
+
+            with _tf.NamedTemporaryFile("w", suffix=".vcf", delete=False) as fh:
+                fh.write(header + ("" if header.endswith("\n") else "\n") + body)
+                vpath = fh.name
+            try:
+                verb = pysam.set_verbosity(0)
+                try:
+                    with pysam.VariantFile(vpath) as vf:
+                        parsed = [(r.chrom, r.pos, r.stop) for r in vf]
+                finally:
+                    pysam.set_verbosity(verb)
+                if len(parsed) != len(recs_out):
+                    bad("vcf:parse", f"htslib reads {len(parsed)} records, the body has {len(recs_out)}")
+                else:
+                    for (c_, pos_, _stop), rec_ in zip(parsed, recs_out):
+                        if (c_, str(pos_)) != (rec_[0], rec_[1]):
+                            bad("vcf:parse", f"htslib reads {c_}:{pos_} for the line {rec_[:2]}")
+                            break
+            except (OSError, ValueError) as exc:
+                bad("vcf:parse", f"htslib cannot parse the exported VCF: {exc}; first record {recs_out[0]}")
+            finally:
+                os.unlink(vpath)
         gi = 0
         ok = True
         for rec, cns, x in info:
